@@ -461,11 +461,20 @@ func Generate(t *rapid.T, p *Profile) *Program {
 	if g.chance(30, "globalpair") && !p.Off["global-pair"] {
 		pairs := []gpair{{"GS = *source2(%d)", "GS.A"}, {"G0 = source1(%d)", "G0"}, {"GP = source2(%d)", "GP.A"}, {"GL = source3(%d)", "GL[0]"},
 			{"GX = source4(%d)", "GX"}, {"GS = *source2(%d)", "GS"}, {"GL = source3(%d)", "GL"}}
-		gp := pairs[g.intn(len(pairs), "gpairkind")]
+		k := g.intn(len(pairs), "gpairkind")
+		gp := pairs[k]
 		g.emit("gwriter()")
-		g.emit("greader()")
+		extra = []string{gp.write, gp.read, ""}
+		// variant: the reader stores the global through its pointer parameter and its caller (which handles no other
+		// data) passes the filled variable to the sink: the flow reaches the parameter without a calling context
+		if k < 4 && g.chance(50, "globalfill") {
+			g.emit("gcaller()")
+			g.feat("global-read-stored-through-param")
+			extra[2] = "fill"
+		} else {
+			g.emit("greader()")
+		}
 		g.feat("global-writer-reader-pair")
-		extra = []string{gp.write, gp.read}
 	}
 	if p.Go {
 		g.emit("waitall()")
@@ -488,15 +497,36 @@ func Generate(t *rapid.T, p *Profile) *Program {
 		g.prog.SrcFunc[wl] = "gwriter"
 		g.emit("}")
 		g.emit("")
-		g.emit("func greader() {")
-		if g.p.Enter {
-			g.emit("\tenter(998)")
+		if extra[2] == "fill" {
+			g.emit("func gfill(p *string) {")
+			if g.p.Enter {
+				g.emit("\tenter(998)")
+			}
+			g.emit("\t*p = %s", extra[1])
+			g.emit("}")
+			g.emit("")
+			g.emit("func gcaller() {")
+			if g.p.Enter {
+				g.emit("\tenter(996)")
+			}
+			g.emit("\tvar x string")
+			g.emit("\tgfill(&x)")
+			rl := g.nextLine()
+			g.emit("\tsink1(%d, x)", rl)
+			g.prog.Sinks[rl] = "sink1"
+			g.prog.SinkFunc[rl] = "gcaller"
+			g.emit("}")
+		} else {
+			g.emit("func greader() {")
+			if g.p.Enter {
+				g.emit("\tenter(998)")
+			}
+			rl := g.nextLine()
+			g.emit("\tsink1(%d, %s)", rl, extra[1])
+			g.prog.Sinks[rl] = "sink1"
+			g.prog.SinkFunc[rl] = "greader"
+			g.emit("}")
 		}
-		rl := g.nextLine()
-		g.emit("\tsink1(%d, %s)", rl, extra[1])
-		g.prog.Sinks[rl] = "sink1"
-		g.prog.SinkFunc[rl] = "greader"
-		g.emit("}")
 	}
 	g.prog.Main = strings.Join(g.lines, "\n") + "\n"
 	g.prog.NBits = g.nbits
